@@ -34,13 +34,13 @@ SHARD = 40
 
 def single_family_cfg(rng):
   """A configuration exercising mostly one family (so that every family is hit often)."""
-  fam = rng.choice(["mono", "uni", "edge", "trap", "mdom", "rdom", "jmono", "juni", "mix", "mix"])
+  fam = rng.choice(["mono", "uni", "edge", "trap", "mdom", "rdom", "jmono", "juni", "mix", "mix", "cancel"])
   if fam == "mix":
     cfg = latgen.gen_cfg(rng, max_vertices=48)
     cfg["fam"] = "mix"
     return cfg
   rank = rng.choice([1, 2, 2, 3])
-  if fam in ("edge", "trap", "mdom", "rdom", "jmono") and rank < 2:
+  if fam in ("edge", "trap", "mdom", "rdom", "jmono", "cancel") and rank < 2:
     rank = 2
   if fam == "juni" and rng.random() < 0.5:
     rank = rng.choice([2, 2, 3])
@@ -54,6 +54,18 @@ def single_family_cfg(rng):
     cfg["monos"] = [rng.choice([0, 1, 1]) for _ in range(rank)]
     if not any(cfg["monos"]):
       cfg["monos"][0] = 1
+  elif fam == "cancel":
+    # per-dimension flags whose SUM is zero (increasing = +1, valley = +1, peak = -1): a shortcut that tests the sum
+    # instead of counting the non-zero flags would skip the whole projection
+    a, b = rng.sample(range(rank), 2)
+    cfg["sizes"][b] = rng.choice([3, 4])
+    cfg["uni"][b] = -1
+    if rng.random() < 0.5:
+      cfg["monos"][a] = 1
+    else:
+      cfg["sizes"][a] = rng.choice([3, 4])
+      cfg["uni"][a] = 1
+    cfg["fam"] = "uni"
   elif fam == "uni":
     d = rng.randrange(rank)
     cfg["sizes"][d] = rng.choice([3, 4, 5])
